@@ -422,7 +422,7 @@ def _reshape_target(g, cur):
     can_az = g.opset >= 14
     if size == 0:
         k = g.pick([1, 2, 3])
-        cands = [list(cur), [0], [0, k], [k, 0], [1, 0, k], list(reversed(cur))]
+        cands = [[0, k], list(cur), [k, 0], [0], [1, 0, k], list(reversed(cur))]
         base = g.pick(cands)
         copy_ok = all(b != 0 or (i < len(cur) and cur[i] == 0) for i, b in enumerate(base))
         if not copy_ok and not can_az:
@@ -489,7 +489,16 @@ def _shape_operand(g, tgt, tag, plain):
 @register("reshape_reshape_rule")
 def host_reshape_reshape(g):
     dt = g.pick(SHAPE_DTYPES)
-    shape = _shape(g, [0, 1, 2, 2, 3, 3, 4], dims=(1, 2, 3, 4, 6, 2), zero=1)
+    shape = _shape(g, [0, 1, 2, 2, 3, 3, 4], dims=(1, 2, 3, 4, 6, 2), zero=2)
+    forced = None
+    if g.opset >= 14 and 1 <= g.draw(st.integers(0, 9)) <= 2:
+        # zero-size data whose final Reshape names the 0 explicitly at an index where its operand has none: Reshape<allowzero=1>(., [0, k])
+        a, k = g.pick([2, 3, 1]), g.pick([1, 2, 3])
+        shape = (a, 0)
+        forced = [(g.pick([[a, 0], [0, a], [-1, 0]]), g.pick([None, None, 0]) , "zsize_copy"), ([0, k], 1, "zsize_explicit")]
+        if forced[0][0] == [0, a]:
+            forced[0] = ([0, a], 1, "zsize_explicit")
+        g.features.add("planted:reshape_reshape:explicit_zero_last")
     x, mode = _inp(g, dt, shape)
     if g.chance(2):
         x = _via_node(g, x)
@@ -497,11 +506,11 @@ def host_reshape_reshape(g):
     g.features.add(f"planted:reshape_reshape:x_{mode}")
     if 0 in shape:
         g.features.add("planted:reshape_reshape:zero_size")
-    n = g.pick([2, 2, 2, 3])
+    n = g.pick([2, 2, 2, 3]) if forced is None else 2
     cur = x
     outs = []
     for i in range(n):
-        tgt, az, variant = _reshape_target(g, cur.shape)
+        tgt, az, variant = _reshape_target(g, cur.shape) if forced is None else forced[i]
         pos = "first" if i == 0 else "second" if i == 1 else "third"
         g.features.add(f"planted:reshape_reshape:{pos}_{variant}")
         g.features.add(f"planted:reshape_reshape:{pos}_allowzero_{az}")
